@@ -233,7 +233,7 @@ func cmdCheck(args []string) int {
 	}
 	tGen := time.Since(t0).Seconds() - tLoad
 	// 4. solve
-	cfg := solveConfig{quickT: 10, slowT: 20, workers: runtime.NumCPU(), dumpDir: *dump}
+	cfg := solveConfig{quickT: 12, slowT: 45, workers: runtime.NumCPU(), dumpDir: *dump}
 	if *tier == "thorough" {
 		cfg.slowT = 60
 		cfg.twoSolver = true
